@@ -126,6 +126,10 @@ def run(ctx):
             try:
                 sz = rx.Size(**size)
                 outs_ = []
+                if rng.random() < 0.5:
+                    # (an unrelated small call with the same settings object first)
+                    with contextlib.redirect_stdout(io.StringIO()):
+                        rx.Extractor(['ab', 'cd'], size=sz, seed=seed)
                 for rep in (1, 2, 3):
                     with contextlib.redirect_stdout(io.StringIO()):
                         xs_ = rx.Extractor(list(arg), size=sz, seed=seed, **opts)
